@@ -101,13 +101,17 @@ def _run(cmd):
 
 
 def _prune(parent, keep=6):
-    """keep only the most recent build dirs under parent (disk is limited)."""
+    """keep only the most recent build dirs per variant prefix under parent (disk is limited)."""
     try:
-        ds = [os.path.join(parent, d) for d in os.listdir(parent)]
-        ds = [d for d in ds if os.path.isdir(d)]
-        ds.sort(key=lambda d: os.path.getmtime(d), reverse=True)
-        for d in ds[keep:]:
-            shutil.rmtree(d, ignore_errors=True)
+        groups = {}
+        for d in os.listdir(parent):
+            full = os.path.join(parent, d)
+            if os.path.isdir(full) and ".tmp" not in d:
+                groups.setdefault(d.split("-")[0], []).append(full)
+        for ds in groups.values():
+            ds.sort(key=lambda d: os.path.getmtime(d), reverse=True)
+            for d in ds[keep:]:
+                shutil.rmtree(d, ignore_errors=True)
     except OSError:
         pass
 
@@ -142,7 +146,7 @@ def build_lib(variant="rel", cache_size=4, extra_flags=()):
                 os.unlink(o)
             shutil.rmtree(d, ignore_errors=True)
             os.rename(tmp, d)
-            _prune(parent, keep=10)
+            _prune(parent, keep=12)
         else:
             os.utime(d)
     inc = ["-I" + os.path.join(r, "include"), "-I" + os.path.join(r, "lib"), "-I" + d]
@@ -169,17 +173,39 @@ def build_harness(src, libinfo, extra_srcs=(), extra_flags=(), name=None, link_l
     with Lock(os.path.join(BUILD, "lock-h-" + name + key)):
         if not os.path.exists(exe):
             os.makedirs(d, exist_ok=True)
-            cmd = [libinfo["cxx"]] + libinfo["cflags"] + list(extra_flags) + libinfo["inc"] + \
-                ["-I" + os.path.join(VERIF, "engine"), src] + list(extra_srcs) + ["-o", exe + ".tmp"]
+            comp = [libinfo["cxx"]] + libinfo["cflags"] + list(extra_flags) + libinfo["inc"] + \
+                ["-I" + os.path.join(VERIF, "engine")]
+            if libinfo["key"].startswith("vtsan-"):
+                # instrumentation at compile time only: link WITHOUT -fsanitize=thread (own runtime in extra_link)
+                _run(comp + ["-c", src, "-o", exe + ".o"])
+                cmd = [libinfo["cxx"], exe + ".o", "-o", exe + ".tmp"]
+            else:
+                cmd = comp + [src] + list(extra_srcs) + ["-o", exe + ".tmp"]
             if link_lib:
                 cmd += [libinfo["lib"]]
             cmd += libinfo["ldflags"] + list(extra_link) + ["-lpthread"]
             _run(cmd)
             os.rename(exe + ".tmp", exe)
-            _prune(parent, keep=3)
+            _prune(parent, keep=6)
         else:
             os.utime(d)
     return exe
+
+
+def build_vrt():
+    """engine/schedex/vrt.cpp compiled WITHOUT thread-sanitizer instrumentation (it is the runtime)."""
+    src = os.path.join(VERIF, "engine", "schedex", "vrt.cpp")
+    key = _hash_files([src, os.path.join(VERIF, "engine", "schedex", "vrt.h")])
+    d = os.path.join(BUILD, "vrt")
+    obj = os.path.join(d, "vrt-%s.o" % key)
+    with Lock(os.path.join(BUILD, "lock-vrt")):
+        if not os.path.exists(obj):
+            os.makedirs(d, exist_ok=True)
+            for f in os.listdir(d):
+                os.unlink(os.path.join(d, f))
+            _run(["clang++", "-std=c++17", "-O2", "-g", "-fno-builtin", "-c", src, "-o", obj + ".tmp"])
+            os.rename(obj + ".tmp", obj)
+    return obj
 
 
 if __name__ == "__main__":
